@@ -80,7 +80,8 @@ Record vtables := mkTables {
   t_unmod : list ustring;                          (* STIX_UNMOD_PROPERTIES *)
   t_verprops : list ustring;                       (* _VERSIONING_PROPERTIES *)
   t_registry : list (bool * ustring * bool);       (* (is 2.1, type, class has all versioning properties), lookup order of class_for_type *)
-  t_sco21 : list (ustring * list ustring)          (* 2.1 observable types with _id_contributing_properties *)
+  t_sco21 : list (ustring * list ustring);         (* 2.1 observable types with _id_contributing_properties *)
+  t_notype : string                                (* class of the error detect_spec_version raises for a dict without "type" *)
 }.
 
 Fixpoint mem (k : ustring) (l : list ustring) : bool :=
@@ -113,7 +114,7 @@ Section WithTables.
   (* utils.detect_spec_version(stix_dict) for non-bundle content *)
   Definition detect (d : pdict) : result sver :=
     match plookup (u "type") d with
-    | None => Raise "KeyError"
+    | None => Raise (t_notype T)
     | Some ty =>
         let is_bundle := match str_of ty with Some s => ustr_eqb s (u "bundle") | None => false end in
         match plookup (u "spec_version") d with
